@@ -17,6 +17,11 @@ CLAIMED = {
                   "decision table (format tag, write = exact version, read = same major & minor not newer, id required from 1.2.0).",
              note="Trusted: HDF5 enforces ACC_RDONLY and TRUNC semantics (byte-level clauses of C11 are assumptions); uuid.UUID spec; "
                   "attribute getters over the abstract store.", ref="7 C11"),
+ "C19": dict(text="Deductive proof, per setter / force call, of the exact store footprint: the attribute (or dataset / link) written, "
+                  "this entity's updated_at set to text(now) iff automatic timestamps are on, created_at written only by force/creation, "
+                  "every other cell of every object unchanged; timestamp text round trip proved from the two verified conversion functions.",
+             note="Trusted: datetime strftime/strptime/utcfromtimestamp facts (assumed; bounded native cross-check planned), h5py attribute/"
+                  "dataset/link primitives as contracts over the abstract store, clock monotone.", ref="7 C19"),
  "C06": dict(text="Deductive proof (unbounded rank/extent/index) that DataView index transformation, ellipsis expansion and window "
                   "bookkeeping in nixio/data_view.py implement NumPy basic indexing on a window; obligations generated from the real "
                   "ASTs on every run and discharged by z3/cvc5.",
